@@ -471,9 +471,9 @@ def _inputs(shard: int, nshards: int, tier: str, seed: int, counter: dict):
         yield from K.enum_space((1, 2, 3), ssb.ALPHABET_FULL, shard, nshards, multiline=True, tag="enumF")
         if thorough:
             yield from K.enum_space((4,), ssb.ALPHABET_TASK, shard, nshards, multiline=True, tag="enumT")
-        yield from K.program_space(seed, 3000 if thorough else 400, shard, nshards, multiline=True, depth=3)
-        yield from K.program_space(seed + 7, 1000 if thorough else 150, shard, nshards, multiline=False, small=False)
-        yield from K.random_space(seed, 20000 if thorough else 2000, shard, nshards, repair=True, multiline=True)
+        yield from K.program_space(seed, 3000 if thorough else 200, shard, nshards, multiline=True, depth=3, small_relayout_stride=1 if thorough else 2)
+        yield from K.program_space(seed + 7, 1000 if thorough else 75, shard, nshards, multiline=False, small=False)
+        yield from K.random_space(seed, 20000 if thorough else 1200, shard, nshards, repair=True, multiline=True)
 
     yield from K.well_formed_only(gen(), counter)
 
@@ -532,8 +532,8 @@ def run(ctx: Ctx) -> PropResult:
         "well-formed routine sets with multi-line const strings and language strings as parameters of plain ops, CaseText/DefaultText and "
         "CaseMenu at every position: every op-class list with <= 3 ops" + (" (thorough: 4 ops)" if thorough else "") + " over the full alphabet x every in-range "
         f"target x 1-2 routines; hand-made shapes x 15 variants (both with and without multi-line strings); compiler output of 11 fixed + ~1300 small + "
-        f"{3000 if thorough else 400} random programs of nesting depth <= 3 with multi-line strings (+ {1000 if thorough else 150} without) and their re-layouts; "
-        f"{20000 if thorough else 2000} random lists <= 30 ops"
+        f"{3000 if thorough else 200} random programs of nesting depth <= 3 with multi-line strings (+ {1000 if thorough else 75} without) and their re-layouts "
+        f"({'all' if thorough else 'every second'} small program re-laid out); {20000 if thorough else 1200} random lists <= 30 ops"
     )
     for contract, evals in (
         (CONTRACT_P + " [ExplorerScript decompiler; also (K), (E)]", stats.get("es_checked", 0)),
